@@ -385,6 +385,26 @@ func (s *sim) step(st Step) error {
 		s.deliver("NodeClaim", claimName(n), "")
 	case "SetOffering":
 		s.setOffering(st.Type, st.Zone, st.CT, st.Price, st.Available)
+	case "SetPool":
+		// edit of the NodePool's disruption block: value = pool name, d = consolidateAfter seconds (-1 Never, -2 unchanged),
+		// method = consolidation policy ("" unchanged)
+		np := &v1.NodePool{ObjectMeta: metav1.ObjectMeta{Name: st.Value}}
+		if !w.EnvMutate(np, "SetPool", func() {
+			switch {
+			case st.D == -1:
+				np.Spec.Disruption.ConsolidateAfter = v1.MustParseNillableDuration("Never")
+			case st.D >= 0:
+				np.Spec.Disruption.ConsolidateAfter = v1.MustParseNillableDuration(fmt.Sprintf("%ds", st.D))
+			}
+			if st.Method != "" {
+				np.Spec.Disruption.ConsolidationPolicy = v1.ConsolidationPolicy(st.Method)
+			}
+			np.Generation++
+		}) {
+			return fmt.Errorf("SetPool: unknown pool %q", st.Value)
+		}
+		s.emitObj(np)
+		s.deliver("NodePool", st.Value, "")
 	case "Snapshot":
 		s.snapshot("step")
 	case "Simulate": // C18 (x_frame.go)
